@@ -106,9 +106,95 @@ pub fn elements_program(rng: &mut Rng, fuel: usize) -> Option<(crate::ast::Dag, 
     Some((dag, p, w))
 }
 
+/// `comp witness X` where the witness target is forced to a padding-free type of exactly `n` bits:
+/// a right-nested product of words, each consumed by a jet whose source is that word.
+fn witness_of_width(rng: &mut Rng, n: usize) -> Option<crate::ast::Dag> {
+    use crate::ast::Dag;
+    let jets = crate::gen::jets_of(Family::Elements);
+    let jet = |name: &str| jets.iter().find(|j| j.jet.name() == name).map(|j| j.jet);
+    let table: [(usize, &str, usize); 8] = [(512, "eq_256", 9), (256, "scalar_normalize", 8), (128, "multiply_64", 7), (64, "complement_64", 6), (32, "complement_32", 5), (16, "complement_16", 4), (8, "complement_8", 3), (1, "complement_1", 0)];
+    let mut comps: Vec<(crate::ast::JetRef, usize)> = Vec::new();
+    let mut rest = n;
+    for (w, name, k) in table.iter() {
+        while rest >= *w {
+            comps.push((jet(name)?, *k));
+            rest -= w;
+        }
+    }
+    rng.shuffle(&mut comps);
+    let mut d = Dag::default();
+    let k = comps.len();
+    // the type and a random value of it
+    let mut t = if k == 0 { crate::ty::unit() } else { crate::ty::word(comps[k - 1].1) };
+    for i in (0..k.saturating_sub(1)).rev() {
+        t = crate::ty::prod(crate::ty::word(comps[i].1), t);
+    }
+    let v = crate::val::gen_val(rng, &t);
+    d.witness.push((v, t));
+    let w = d.push(Op::Witness(Some(0)));
+    let x = if k == 0 {
+        d.push(Op::Unit)
+    } else {
+        let mut parts = Vec::new();
+        for i in 0..k {
+            let iden = d.push(Op::Iden);
+            let mut sel = if i + 1 < k { d.push(Op::Take(iden)) } else { iden };
+            for _ in 0..i {
+                sel = d.push(Op::Drop(sel));
+            }
+            let j = d.push(Op::Jet(comps[i].0));
+            parts.push(d.push(Op::Comp(sel, j)));
+        }
+        let mut p = parts[k - 1];
+        for i in (0..k - 1).rev() {
+            p = d.push(Op::Pair(parts[i], p));
+        }
+        let u = d.push(Op::Unit);
+        d.push(Op::Comp(p, u))
+    };
+    d.push(Op::Comp(w, x));
+    Some(d)
+}
+
 pub fn run(ctx: &Ctx) {
     let t = ctx.tier;
-    ctx.run_sub("generated-programs", Plan::sample(t.pick(30_000, 1_500_000), 0.4), |rng, case| {
+    // every witness bit length 0..=1100 (thorough ..=4200): the witness value is hashed into the identity root
+    // in 512-bit blocks, so every residue of the length is a boundary case for one of the two implementations
+    let max_len: u64 = t.pick(1100, 4200);
+    ctx.run_sub("witness-bit-lengths", Plan::enumerate((max_len + 1) * 2, 0.15), |rng, case| {
+        let n = (case.idx / 2) as usize;
+        let dag = match witness_of_width(rng, n) {
+            Some(d) => d,
+            None => return Outcome::Inconclusive("jet table".into()),
+        };
+        let typing = match crate::ast::infer(&dag, true, None) {
+            Ok(t) => t,
+            Err(_) => return Outcome::Inconclusive("harness: width program ill-typed".into()),
+        };
+        if typing[0].1.width != n {
+            return Outcome::Inconclusive(format!("harness: witness type has {} bits, wanted {}", typing[0].1.width, n));
+        }
+        let wits = match prog::witness_values(&dag, rng, false) {
+            Ok(w) => w,
+            Err(e) => return Outcome::Inconclusive(e),
+        };
+        let order = crate::ast::natural_order(&dag);
+        let r = match prog::build_redeem(&dag, &order, &wits, None, Root::Program) {
+            Ok(r) => r,
+            Err(e) => return violated("well-typed-program-rejected", format!("{} ; witness of {} bits", e, n)),
+        };
+        let (p, w) = r.to_vec_with_witness();
+        case.desc = format!("witness of {} bits ; bytes {} / {}", n, crate::runner::truncate(&bits::fmt_bytes(&p), 300), crate::runner::truncate(&bits::fmt_bytes(&w), 300));
+        case.hash = Some(hash_bytes(&p) ^ hash_bytes(&w).rotate_left(3));
+        case.count(&format!("witness-length-mod-512-block.{}", (n % 512) / 64));
+        match compare(&p, &w, Some(false), case) {
+            Ok("both-accept") => Outcome::Held,
+            Ok("c-limit") => Outcome::Inconclusive("C-side limit".into()),
+            Ok(other) => violated("width-program-not-accepted", format!("{} ; {}", other, case.desc)),
+            Err((sig, d)) => violated(sig, d),
+        }
+    });
+    ctx.run_sub("generated-programs", Plan::sample(t.pick(150_000, 1_500_000), 0.4), |rng, case| {
         let fuel = rng.urange(2, 18);
         let (dag, p, w) = match elements_program(rng, fuel) {
             Some(x) => x,
@@ -129,7 +215,7 @@ pub fn run(ctx: &Ctx) {
             Err((sig, d)) => violated(sig, d),
         }
     });
-    ctx.run_sub("mutated-encodings", Plan::sample(t.pick(40_000, 3_000_000), 0.3), |rng, case| {
+    ctx.run_sub("mutated-encodings", Plan::sample(t.pick(200_000, 3_000_000), 0.3), |rng, case| {
         let fuel = rng.urange(2, 12);
         let (_, mut p, mut w) = match elements_program(rng, fuel) {
             Some(x) => x,
@@ -149,7 +235,7 @@ pub fn run(ctx: &Ctx) {
             Err((sig, d)) => violated(sig, d),
         }
     });
-    ctx.run_sub("random-bytes", Plan::sample(t.pick(60_000, 5_000_000), 0.2), |rng, case| {
+    ctx.run_sub("random-bytes", Plan::sample(t.pick(300_000, 5_000_000), 0.2), |rng, case| {
         let lp = 1 + rng.skewed(48);
         let mut p = rng.bytes(lp);
         if rng.chance(2, 3) {
